@@ -25,7 +25,7 @@ EXPLANATION = (
     "trimming never edits in place a shard or cview list shared with the wrapped (possibly cached) canvas - otherwise a re-render of the unchanged child has a different size."
     ' Added after seed round 3: (9) FOCUS-FWD - every function that receives `focus` hands it on to each callee that takes it, so render(), rows() and pack() agree on the size of the focused rendering; (10) the Scrollable clamp rule of C20 (an unclamped position trims more rows than exist); (11) ACCUM - the running column of shards_trim_sides and the space budget of Columns.column_widths advance in every continuing iteration; (12) BarGraph.hlines_display collapses h-lines by the row it stores.'
     ' Round 4: (13) LOOPFRESH, (14) segment width measured over its own offsets (C03.13), (15) scroll-bar parts (C20.3).'
-    " Round-4 triage: (17) widget text is cut into lines at the layout's separator only - no str.splitlines() in the widget / layout / canvas layers; split()/count() in a measurement use the newline constant of the layout. Round 5: (18) Frame.render cuts each part with its own trim; (19) SHADOW - no loop target clobbers a live local (the rule that found the resize() defect of vterm, applied to all widget modules)."
+    " Round-4 triage: (17) widget text is cut into lines at the layout's separator only - no str.splitlines() in the widget / layout / canvas layers; split()/count() in a measurement use the newline constant of the layout. Round 5: (18) Frame.render cuts each part with its own trim; (19) SHADOW - no loop target clobbers a live local (the rule that found the resize() defect of vterm, applied to all widget modules); (20) every CompositeCanvas method that cuts rows / columns away drops a cursor left outside."
 )
 NOT_DECIDED = (
     "That composed canvases actually have the requested size for all trees/sizes/texts (value semantics of shards, layout and padding); truthfulness of sizing(); wide-character column "
@@ -345,6 +345,54 @@ def _shadow(ctx: Ctx):
     return shadow.run_shadow(ctx.p, "C01.19", modules(ctx.p), floor=100, description="no `for` target in the widget / canvas / layout modules clobbers a local that is read after the loop with its earlier meaning")
 
 
+def rule_trim_drops_cursor(ctx: Ctx) -> RuleResult:
+    """'a cursor, if present, lies inside the canvas': the methods of CompositeCanvas that cut rows or columns away
+    (they call shards_trim_top / shards_trim_rows / shards_trim_sides) move the cursor coordinates with the content;
+    a cursor that ends up outside the remaining cells has to be dropped - every path from such a cut to the end of
+    the method passes _drop_trimmed_cursor() (directly, or through a method of the class that does)."""
+    p = ctx.p
+    rr = RuleResult("PASS", "C01.20", "every CompositeCanvas method that cuts rows / columns away drops a cursor left outside the canvas", floor=3)
+    C = p.cls("urwid.canvas.CompositeCanvas")
+    drops = {"_drop_trimmed_cursor"}
+    changed = True
+    while changed:
+        changed = False
+        for name, fi in C.methods.items():
+            if name in drops:
+                continue
+            cfg = cfg_of(fi)
+            calls = nodes_where(cfg, lambda x: isinstance(x, ast.Call) and isinstance(x.func, ast.Attribute) and x.func.attr in drops and isinstance(x.func.value, ast.Name) and x.func.value.id == fi.self_name)
+            if calls and cfg.exit not in cfg.reachable([cfg.entry], avoid=calls, include_start=True, labels=("n", "T", "F")):
+                drops.add(name)
+                changed = True
+    for name, fi in sorted(C.methods.items()):
+        cfg = cfg_of(fi)
+        cuts = nodes_where(cfg, lambda x: isinstance(x, ast.Call) and isinstance(x.func, ast.Name) and x.func.id in ("shards_trim_top", "shards_trim_rows", "shards_trim_sides"))
+        if not cuts:
+            continue
+        after = nodes_where(cfg, lambda x: isinstance(x, ast.Call) and isinstance(x.func, ast.Attribute) and x.func.attr in drops and isinstance(x.func.value, ast.Name) and x.func.value.id == fi.self_name)
+        if name == "overlay":
+            # overlay() cuts the *covered* canvas into the shards around the overlaid one and re-assembles all of them:
+            # the canvas keeps its size, nothing is cut away from it
+            rr.inst(f"{short(fi)}: re-assembly, not a cut", True)
+            continue
+
+        def controls(node):
+            from ..rules.exc import ExcEngine
+
+            return {(norm(t.ast, 60), lab) for t in cfg.nodes if t.kind == "test" for lab in ("T", "F") if node not in ExcEngine._reach_without_edge(cfg, t, lab)}
+
+        for c in cuts:
+            ok = bool(after) and cfg.must_pass(c, after, ends=[cfg.exit], labels=("n", "T", "F"))
+            if not ok and after:
+                # the drop is made under exactly the condition under which the cut was made (`if left < 0 or right < 0:`)
+                ok = any(controls(a) == controls(c) and a in cfg.reachable([c]) for a in after)
+            rr.inst(f"{short(fi)}:{norm(c.stmt, 40)}", True, {"method": short(fi), "cut": norm(c.stmt, 60), "cursor_dropped_afterwards": ok})
+            if not ok:
+                rr.add(finding("PASS", fi, c.stmt, f"after `{norm(c.stmt, 50)}` {name}() can finish without _drop_trimmed_cursor(): a cursor that was in the part cut away keeps its (shifted) coordinates and is reported outside the canvas - the display then puts the terminal cursor on an unrelated cell", construct=f"{name}: cut without dropping an outside cursor"))
+    return rr
+
+
 def run(ctx: Ctx):
     p = ctx.p
     mods = modules(p)
@@ -367,6 +415,7 @@ def run(ctx: Ctx):
         rule_line_separator(ctx),
         rule_frame_trims(ctx),
         _shadow(ctx),
+        rule_trim_drops_cursor(ctx),
     ]
 
 
@@ -375,6 +424,8 @@ _COLS = "urwid/widget/columns.py"
 _CANV = "urwid/canvas.py"
 _TEXT = "urwid/widget/text.py"
 MUTANTS = [
+    Mut("trim-end-keeps-outside-cursor", _CANV, "CompositeCanvas.trim_end", "        self.shards = shards_trim_rows(self.shards, self.rows() - end)\n        self._drop_trimmed_cursor()\n", "        self.shards = shards_trim_rows(self.shards, self.rows() - end)\n", "PASS|canvas.CompositeCanvas.trim_end"),
+    Mut("side-trim-keeps-outside-cursor", _CANV, "CompositeCanvas.pad_trim_left_right", "        if left < 0 or right < 0:\n            self._drop_trimmed_cursor()\n", "", "PASS|canvas.CompositeCanvas.pad_trim_left_right"),
     Mut("frame-footer-cut-with-header-trim", "urwid/widget/frame.py", "Frame.render", "foot = Filler(self.footer, VAlign.BOTTOM).render((maxcol, ftrim), focus and self.focus_part == \"footer\")", "foot = Filler(self.footer, VAlign.BOTTOM).render((maxcol, htrim), focus and self.focus_part == \"footer\")", "SIB|widget.frame.Frame.render"),
     Mut("text-pack-splitlines", _TEXT, "Text.pack", 'text.split("\\n")', "text.splitlines()", "SIB|widget.text.Text.pack"),
     Mut("twin-text-pack-split-keyword", _TEXT, "Text.pack", 'text.split("\\n")', 'text.split(sep="\\n")', twin=True),
